@@ -150,12 +150,13 @@ def cmd_run(a):
         rc = summarise(prop, tier, seed, eng, recs, bad, t0, tmpdir, a)
     finally:
         shutil.rmtree(tmpdir, ignore_errors=True)
+        import re
+
         for d in os.listdir(harness.SHM):
-            if d.startswith("simkit-") and not d.startswith("simkit-master-"):
-                # worlds of children that were SIGKILLed
-                pid = d.split("-")[1]
-                if not os.path.exists(f"/proc/{pid}"):
-                    shutil.rmtree(os.path.join(harness.SHM, d), ignore_errors=True)
+            m = re.match(r"^simkit-(\d+)-\d+", d)
+            if m and not os.path.exists(f"/proc/{m.group(1)}"):
+                # world of a child that was SIGKILLed (its parent is gone too)
+                shutil.rmtree(os.path.join(harness.SHM, d), ignore_errors=True)
     return rc
 
 
